@@ -98,13 +98,16 @@ class StatsDict(dict):
 
 
 class TokRec:
-    __slots__ = ("ev", "side", "edge", "proc", "node", "t_issue", "status", "t_grant", "t_end", "batch")
+    __slots__ = ("ev", "side", "edge", "proc", "node", "t_issue", "status", "t_grant", "t_end", "batch", "was_triggered", "checked")
 
     def __init__(self, ev, side, edge, proc, node, t):
         self.ev, self.side, self.edge, self.proc, self.node, self.t_issue = ev, side, edge, proc, node, t
         self.status = "pending"
         self.t_grant = None
         self.t_end = None
+        self.batch = None
+        self.was_triggered = False
+        self.checked = False
 
 
 class Ledger:
@@ -130,6 +133,8 @@ class Ledger:
         self.occ_hist = collections.defaultdict(list)  # edge_id -> [(t, occupancy after event)]
         self.crash = None
         self.procs = []
+        self.batch_no = 0
+        self.batch_open = {}      # id(process) -> batch number of the reservations it is currently collecting
 
     def held_by_processes(self, node):
         """ids of the objects that live processes of `node` (or its *_in_process attributes) still reference"""
@@ -224,6 +229,11 @@ class Ledger:
                 p, node = led.caller()
                 ev = orig(*a, **k)
                 t = TokRec(ev, side, e, p, node, led.env.now)
+                # a batch = the reservations one process issues before it uses or withdraws any of them
+                if id(p) not in led.batch_open:
+                    led.batch_no += 1
+                    led.batch_open[id(p)] = led.batch_no
+                t.batch = led.batch_open[id(p)]
                 led.tokens.append(t)
                 led.tok_by_ev[id(ev)] = t
                 it = led.frame_item(p)
@@ -240,6 +250,8 @@ class Ledger:
                 if t is not None:
                     t.status = "cancelled"
                     t.t_end = led.env.now
+                    t.was_triggered = bool(ev.triggered)
+                    led.batch_open.pop(id(t.proc), None)
                 led.events.append((led.env.now, "cancel_" + side, e.id, None, None, None))
                 return r
             return f
@@ -252,6 +264,7 @@ class Ledger:
             if t is not None:
                 t.status = "used"
                 t.t_end = led.env.now
+                led.batch_open.pop(id(t.proc), None)
             l = led.loc.get(id(it))
             if l is None:
                 led.V("C03", "one-place", "unknown object %r put into %s" % (it, e.id), op="put")
@@ -271,6 +284,7 @@ class Ledger:
             if t is not None:
                 t.status = "used"
                 t.t_end = led.env.now
+                led.batch_open.pop(id(t.proc), None)
             l = led.loc.get(id(it))
             if l != ("edge", e.id):
                 led.V("C03", "one-place", "get on %s returned %r which the ledger has at %r" % (e.id, getattr(it, "id", it), l), op="get")
